@@ -9,7 +9,7 @@ fn gen_distances(rng: &mut Rng, populated: &[u64]) -> Vec<u64> {
             *rng.pick(populated)
         }
     };
-    match rng.below(10) {
+    match rng.below(12) {
         0 => vec![],
         1 => vec![0],
         2 => {
@@ -51,8 +51,85 @@ fn gen_distances(rng: &mut Rng, populated: &[u64]) -> Vec<u64> {
             v.reverse();
             v
         }
-        _ => vec![pick_pop(rng), 0],
+        9 => vec![pick_pop(rng), 0],
+        10 => {
+            // a value repeated with other values in between (largest first, smallest first, with 0 or an
+            // out-of-range value in between)
+            let a = pick_pop(rng);
+            let b = loop {
+                let b = pick_pop(rng);
+                if b != a || populated.len() < 2 {
+                    break b;
+                }
+            };
+            match rng.below(5) {
+                0 => vec![a, b, a],
+                1 => vec![a.max(b), a.min(b), a.max(b)],
+                2 => vec![a.min(b), a.max(b), a.min(b), a.max(b)],
+                3 => vec![a, 0, a, b, 300, b],
+                _ => vec![a, b, b, a, 257, a],
+            }
+        }
+        _ => {
+            // a few values in random order, every one of them twice
+            let n = rng.range(2, 5);
+            let mut v: Vec<u64> = (0..n).map(|_| pick_pop(rng)).collect();
+            let w = v.clone();
+            v.extend(w);
+            for i in (1..v.len()).rev() {
+                let j = rng.below(i as u64 + 1) as usize;
+                v.swap(i, j);
+            }
+            v
+        }
     }
+}
+
+/// C08 (third sentence) on the result of one lookup by log2 distances - `Discv5::nodes_by_distance`
+/// or the table records of a served FINDNODE answer: only nodes stored at the requested distances
+/// (so nothing for distances outside 1..256), no node twice, all of them up to the cap. `table` is
+/// the table content, `excluded` the requester whose own record a served answer leaves out (after
+/// the cap has been applied, so an answer may be one short of the cap).
+pub fn check_by_distance(what: &str, nodes: &[&Enr], distances: &[u64], local_id: &K32, table: &[(K32, Enr)], cap: usize, excluded: Option<&K32>) -> Option<String> {
+    let cand: Vec<&(K32, Enr)> = table
+        .iter()
+        .filter(|(k, _)| {
+            let d = log2dist(local_id, k);
+            (1..=256).contains(&d) && distances.contains(&d)
+        })
+        .collect();
+    let mut seen = BTreeSet::new();
+    for e in nodes {
+        let id = e.node_id().raw();
+        if !cand.iter().any(|(k, v)| *k == id && v == *e) {
+            return Some(format!("{} returned a record that is not stored at one of the requested distances", what));
+        }
+        if !seen.insert(id) {
+            return Some(format!("{} returned the same node twice", what));
+        }
+    }
+    let limit = cap.max(1); // the collection loop pushes before it tests the cap
+    if nodes.len() > limit {
+        return Some(format!("{} returned {} nodes, the cap is {}", what, nodes.len(), cap));
+    }
+    match excluded {
+        None => {
+            if nodes.len() != cand.len().min(limit) {
+                return Some(format!("{} returned {} of the {} nodes stored at the requested distances (cap {})", what, nodes.len(), cand.len(), cap));
+            }
+        }
+        Some(x) => {
+            if cand.len() <= cap {
+                let expect = cand.iter().filter(|(k, _)| k != x).count();
+                if nodes.len() != expect {
+                    return Some(format!("{} returned {} of the {} nodes stored at the requested distances (cap {})", what, nodes.len(), expect, cap));
+                }
+            } else if nodes.len() + 1 < limit {
+                return Some(format!("{} returned {} of the {} nodes stored at the requested distances (cap {})", what, nodes.len(), cand.len(), cap));
+            }
+        }
+    }
+    None
 }
 
 fn gen_req_id(rng: &mut Rng) -> Vec<u8> {
@@ -210,6 +287,10 @@ pub fn run_case(idents: &[Ident], idx: u64, rng: &mut Rng, _thorough: bool, hist
                 }
                 let addr = NodeAddress { socket_addr: sock4([192, 168, rng.below(256) as u8, 7], rng.range(1, 65535) as u16), node_id: idents[rq].node_id() };
                 let before = table_content(&b.s.kbuckets.read());
+                // the application asks its own node the same question at the same moment (same table,
+                // same cap; like the answer, the call puts the due pending nodes of the buckets it
+                // visits in their place)
+                let api: Vec<Enr> = b.s.discv5.nodes_by_distance(ds.clone());
                 b.inject(HandlerOut::Request(
                     addr.clone(),
                     Box::new(Request { id: RequestId(id.clone()), body: RequestBody::FindNode { distances: ds.clone() } }),
@@ -231,6 +312,29 @@ pub fn run_case(idents: &[Ident], idx: u64, rng: &mut Rng, _thorough: bool, hist
                 let _ = before;
                 if let Some(m) = check_served(&served, &id, &ds, &idents[rq].id, &cur_local, &settled, max_nodes, max_packet) {
                     failures.push(("C14".to_string(), m));
+                }
+                // C08: both lookups by distance, each against the table; and against each other
+                {
+                    let served_all: Vec<&Enr> = served.packets.iter().flat_map(|p| p.2.iter()).collect();
+                    let served_rest: Vec<&Enr> = served_all.iter().filter(|e| e.node_id().raw() != local_id).cloned().collect();
+                    let api_rest: Vec<&Enr> = api.iter().filter(|e| e.node_id().raw() != local_id).collect();
+                    if let Some(m) = check_by_distance("Discv5::nodes_by_distance", &api_rest, &ds, &local_id, &settled, max_nodes, None) {
+                        failures.push(("C08".to_string(), m));
+                    }
+                    if let Some(m) = check_by_distance("the lookup by distances behind a FINDNODE answer", &served_rest, &ds, &local_id, &settled, max_nodes, Some(&idents[rq].id)) {
+                        failures.push(("C08".to_string(), m));
+                    }
+                    let api_for_requester: Vec<&Enr> = api.iter().filter(|e| e.node_id().raw() != idents[rq].id).collect();
+                    if api_for_requester != served_all {
+                        failures.push((
+                            "C08".to_string(),
+                            "Discv5::nodes_by_distance and the FINDNODE answer for the same distance list over the same table differ (the requester's own record left out of both)".to_string(),
+                        ));
+                    }
+                    if forced.is_some() {
+                        hist.add("c14:nodes_by_distance_compared_right_after_a_pending_timeout");
+                    }
+                    hist.add("c14:nodes_by_distance_compared_with_the_answer");
                 }
                 let total_recs: usize = served.packets.iter().map(|p| p.2.len()).sum();
                 if total_recs > 0 {
